@@ -17,7 +17,7 @@ META = dict(
     text="every cell of step {setup M2,M4,M6; verify M2,M4; add/remove pairing M2 on IP and BLE} x error {absent, 0x01..0x07, 0x00, 0x08, 0xff, "
     "empty, 2-byte} x state {expected, +1, -1, 0, absent, 2-byte} x every subset of the step's honest other fields x error position is fed "
     "to the real code the way IP/CoAP (expected-filter) and BLE (unfiltered) feed it; an error with expected/absent state must raise "
-    "exactly the documented class, a wrong state must raise, neither may ever complete The IP cells also travel over the real HomeKitConnection (pair-verify M2/M4, /pairings) in every legal HTTP spelling of the reply (header-name case, optional whitespace, extra headers, chunked). Also: a CoAP leg (pair-verify / pair-setup cells under 2.04 and 4.xx / 5.xx responses; remove-pairing under every PDU status, foreign tid, missing response bit), remove-pairing through the application-facing Controller, and BLE schedules in which the accessory hangs up right after its error reply. API leg (c04_api.py): through the public discovery API of IP, CoAP and BLE the accessory refuses the next k (1..6) requests of pair-setup step M1 / M3 / M5 with a code, at the first attempt or after one or two failed ones: the operation that got the reply fails with the mapped class, returns nothing, and repeats nothing behind the caller's back. The scripted /pairings endpoint answers list requests honestly (a follow-up look at the list must not turn a refused add / remove into a success).",
+    "exactly the documented class, a wrong state must raise, neither may ever complete The IP cells also travel over the real HomeKitConnection (pair-verify M2/M4, /pairings) in every legal HTTP spelling of the reply (header-name case, optional whitespace, extra headers, chunked). Also: a CoAP leg (pair-verify / pair-setup cells under 2.04 and 4.xx / 5.xx responses; remove-pairing under every PDU status, foreign tid, missing response bit), remove-pairing through the application-facing Controller, and BLE schedules in which the accessory hangs up right after its error reply. API leg (c04_api.py): through the public discovery API of IP, CoAP and BLE the accessory refuses the next k (1..6) requests of pair-setup step M1 / M3 / M5 with a code, at the first attempt or after one or two failed ones: the operation that got the reply fails with the mapped class, returns nothing, and repeats nothing behind the caller's back. The scripted /pairings endpoint answers list requests honestly (a follow-up look at the list must not turn a refused add / remove into a success). Also the error reply behind a late answer to an earlier request that timed out on the same connection.",
     note="other fields carry the honest values (so an ignored error would otherwise succeed); cells with neither error nor wrong state are not judged",
     design_ref="DESIGN.md §4 C04",
     debug_pass="thorough",
